@@ -15,7 +15,7 @@ from .. import impl, model, corr, gen
 from ..common import *
 
 FUEL = 40
-CORE = {'functions': False, 'types': False, 'params': False, 'keys': False, 'query_rhs': False, 'captures': False, 'cycles': 0.0}
+CORE = {'functions': False, 'types': True, 'params': False, 'keys': False, 'query_rhs': False, 'captures': False, 'cycles': 0.0}
 HEADER = 'From GV.Model Require Import CheckSpec.\n'
 
 
@@ -214,6 +214,47 @@ def variables(ctx, sample):
     return n
 
 
+TB_DOCS = [
+    {'Resources': {'a': {'Type': 'AWS::S3::Bucket', 'Properties': {'Size': 5, 'Tags': [1]}}, 'b': {'Type': 'AWS::S3::Bucket', 'Properties': {'Size': 50}},
+                   'c': {'Type': 'AWS::IAM::Role', 'Properties': {'Size': 500}}}, 'Settings': {'Level': 3}},
+    {'Resources': {'c': {'Type': 'AWS::IAM::Role', 'Properties': {'Size': 1}}}, 'Settings': {'Level': 1}},
+    {'Resources': {}, 'Settings': {'Level': 3}},
+    {'Settings': {'Level': 3}},
+    {'Resources': {'a': {'Type': 'AWS::S3::Bucket'}, 's': 'not a resource'}, 'Settings': {'Level': 3}},
+    {'Resources': [{'Type': 'AWS::S3::Bucket', 'Properties': {'Size': 5}}], 'Settings': {}},
+    {'Resources': {'a': {'Type': ['AWS::S3::Bucket'], 'Properties': {'Size': 5}}, 'b': {'Type': 'AWS::S3::Bucket', 'Properties': {'Size': 'x'}}}, 'Settings': {'Level': 3}},
+]
+TB_BODIES = ['Properties.Size >= 10', 'Properties.Size exists', 'Properties.Tags !empty', 'Properties.Size >= 10 or\n    Properties.Tags exists',
+             'Properties {\n      Size <= 100\n    }', 'let s = Properties.Size\n    %s >= 10', 'when Properties.Tags exists {\n      Properties.Size < 10\n    }',
+             'Properties.Missing !exists', 'this is_struct', 'Type == "AWS::S3::Bucket"']
+TB_CONDS = ['', ' when Settings.Level >= 2', ' when Settings.Level exists', ' when Missing exists', ' when other']
+
+
+def type_blocks(ctx):
+    """directed: one type block per rule - body x optional condition x documents with several / one / no resource of the type,
+    an empty `Resources`, no `Resources`, a non-map resource, a list of resources, a `Type` that is not a string"""
+    pairs = []
+    n_blocks = 0
+    for doc in TB_DOCS:
+        for cond in TB_CONDS:
+            rules = 'rule other {\n  Settings.Level >= 2\n}\n'
+            for i, body in enumerate(TB_BODIES):
+                rules += 'rule t%d {\n  AWS::S3::Bucket%s {\n    %s\n  }\n}\n' % (i, cond, body)
+                n_blocks += 1
+            rules += 'rule two {\n  AWS::S3::Bucket {\n    Properties.Size exists\n  }\n  AWS::IAM::Role {\n    Properties.Size >= 1\n  } or\n  Settings.Level == 3\n}\n'
+            pairs.append({'rules': rules, 'data': json.dumps(doc), 'loader': 'json'})
+            # each block in a file of its own as well: an error in one rule ends the file
+            for i, body in enumerate(TB_BODIES[:4]):
+                pairs.append({'rules': 'rule other {\n  Settings.Level >= 2\n}\nrule t {\n  AWS::S3::Bucket%s {\n    %s\n  }\n}\n' % (cond, body), 'data': json.dumps(doc), 'loader': 'json'})
+    res = spec_cases(pairs, ctx.wd, 'c01tb')
+    stats = {}
+    n = judge(ctx, pairs, res, stats)
+    ctx.coverage['type_block_programs_run'] = len(pairs)
+    ctx.coverage['type_block_file_verdicts'] = stats
+    ctx.coverage['evaluations'] += len(pairs)
+    return n
+
+
 def run(ctx):
     ctx.build()
     pr = ctx.proofs('C01')
@@ -221,6 +262,7 @@ def run(ctx):
     n1, pairs = generated(ctx, 1500 if thorough else 250)
     n2 = exhaustive(ctx, None if thorough else 1500)
     n2 += variables(ctx, None if thorough else 25)
+    n2 += type_blocks(ctx)
     out, errs = corr.run(pairs[:400], ctx.wd, 'c01corr', loader='cli')
     if errs:
         raise ToolingError('model evaluation failed: %r' % (errs[:1],))
@@ -233,7 +275,7 @@ def run(ctx):
                         {'class': 'eval-correspondence', 'verdict': o['verdict'], 'rules': p['rules'], 'data': p['data']}, found=False)
     ctx.coverage['correspondence_verdicts'] = stats
     ctx.coverage['distinct_nontrivial'] = n1 + n2
-    ctx.coverage['rule'] = ('generated programs of the core fragment (tools/gv/gen.py with functions, type blocks, parameterised rules, keys filters, query right-hand sides and '
+    ctx.coverage['rule'] = ('generated programs of the core fragment (tools/gv/gen.py incl. type blocks; with functions, parameterised rules, keys filters, query right-hand sides and '
                             'captures switched off) x their document and a random document; single-clause programs: every query of a %d-query universe x all/some x prefix not '
                             'x every unary operator and polarity / every binary operator x a %d-literal universe, against %d documents (quick: a seeded sample); counted when '
                             'Spec covers the case and agrees' % (len(QUERIES), len(LITERALS), len(DOCS)))
